@@ -635,11 +635,12 @@ type c24qProposalRun struct {
 	deep  int
 	first map[string]string   // fact name -> name of the first proposal stored for it (not yet cleaned)
 	order map[string][]string // position -> fact names in the order they were first stored (not yet cleaned)
+	equiv map[string]bool     // position holds / held two different facts at once and is not empty since
 	obs   string
 }
 
 func (env *c24qEnv) newProposalRun(deep int) *c24qProposalRun {
-	x := &c24qProposalRun{env: env, db: env.newPool(deep), deep: deep, first: map[string]string{}, order: map[string][]string{}}
+	x := &c24qProposalRun{env: env, db: env.newPool(deep), deep: deep, first: map[string]string{}, order: map[string][]string{}, equiv: map[string]bool{}}
 
 	if ok, err := x.db.SetBallot(env.guardBallot); err != nil || !ok {
 		panic(fmt.Sprintf("guard ballot: %v %v", ok, err))
@@ -654,7 +655,12 @@ func (x *c24qProposalRun) modelKey() string {
 		o[k] = strings.Join(v, ">")
 	}
 
-	return "F{" + c24qSortedKV(x.first) + "}O{" + c24qSortedKV(o) + "}"
+	e := map[string]string{}
+	for k := range x.equiv {
+		e[k] = "y"
+	}
+
+	return "F{" + c24qSortedKV(x.first) + "}O{" + c24qSortedKV(o) + "}E{" + c24qSortedKV(e) + "}"
 }
 
 func (x *c24qProposalRun) key() string {
@@ -756,6 +762,7 @@ func (x *c24qProposalRun) apply(ev string, check bool) (vios []c24qVio) {
 
 			if len(nfs) < 1 {
 				delete(x.order, p)
+				delete(x.equiv, p)
 			} else {
 				x.order[p] = nfs
 			}
@@ -795,6 +802,10 @@ func (x *c24qProposalRun) apply(ev string, check bool) (vios []c24qVio) {
 		if !known {
 			x.first[pr.fact] = pr.name
 			x.order[env.poss[pr.pos].name] = append(x.order[env.poss[pr.pos].name], pr.fact)
+
+			if len(x.order[env.poss[pr.pos].name]) > 1 {
+				x.equiv[env.poss[pr.pos].name] = true
+			}
 		}
 
 		x.obs = fmt.Sprintf("setproposal:%v", added)
@@ -836,30 +847,41 @@ func (x *c24qProposalRun) apply(ev string, check bool) (vios []c24qVio) {
 		case err != nil:
 			vio(map[string]any{"kind": "error", "call": "ProposalByPoint"}, "%v", err)
 		case found != (len(facts) > 0):
-			what := "stored-position-not-found"
+			what := "kept-fact-not-found-by-position"
 			if found {
 				what = "found-at-empty-position"
 			}
 
-			vio(map[string]any{"kind": "proposal-by-point-wrong", "what": what, "facts_at_position": len(facts)},
-				"after %s: ProposalByPoint(%s) found=%v; %s", ev, pos.name, found, x.modelKey())
+			vio(map[string]any{"kind": "proposal-by-point-wrong", "what": what, "position_equivocated": x.equiv[pos.name]},
+				"after %s: ProposalByPoint(%s) found=%v although the pool keeps %v for that position (position ever held two facts: %v); %s",
+				ev, pos.name, found, facts, x.equiv[pos.name], x.modelKey())
 		case found:
 			i, ok := env.proposalBy[c24qIdent(pr)]
 
 			switch {
 			case !ok, env.proposals[i].pos != env.poss2index(pos.name):
-				vio(map[string]any{"kind": "proposal-by-point-wrong", "what": "foreign-proposal", "facts_at_position": len(facts)},
+				vio(map[string]any{"kind": "proposal-by-point-wrong", "what": "foreign-proposal", "position_equivocated": x.equiv[pos.name]},
 					"after %s: ProposalByPoint(%s) returned a proposal of another position", ev, pos.name)
 			case env.proposals[i].name != x.first[env.proposals[i].fact]:
-				vio(map[string]any{"kind": "proposal-by-point-wrong", "what": "not-the-kept-proposal-of-its-fact", "facts_at_position": len(facts)},
+				vio(map[string]any{"kind": "proposal-by-point-wrong", "what": "not-the-kept-proposal-of-its-fact", "position_equivocated": x.equiv[pos.name]},
 					"after %s: ProposalByPoint(%s) returned %s, but the pool keeps %s for that fact", ev, pos.name, env.proposals[i].name, x.first[env.proposals[i].fact])
 			case len(facts) > 1:
-				// two different facts for one position (equivocating proposer): the statement speaks per fact;
-				// which fact the position resolves to is recorded, not judged
-				if env.proposals[i].fact == facts[0] {
-					x.obs += "/equivocation:first-fact"
-				} else {
-					x.obs += "/equivocation:later-fact"
+				// two different facts kept for one position (equivocating proposer). The statement
+				// is per fact: the lookup by its position returns its kept proposal; it cannot
+				// hold for both, it is reported for the one that is not returned
+				returned := "first-fact"
+				if env.proposals[i].fact != facts[0] {
+					returned = "later-fact"
+				}
+
+				x.obs += "/equivocation:" + returned
+
+				for _, f := range facts {
+					if f != env.proposals[i].fact {
+						vio(map[string]any{"kind": "proposal-by-point-other-fact", "returned": returned},
+							"after %s: the pool keeps %s for fact %s, but ProposalByPoint of its position %s returns %s (facts kept for the position, in arrival order: %v)",
+							ev, x.first[f], f, pos.name, env.proposals[i].name, facts)
+					}
 				}
 			}
 		}
@@ -1039,7 +1061,7 @@ func TestVerifC24(t *testing.T) {
 	type cfg struct{ deep, depth int }
 
 	cfgs := vlib.Pick(r,
-		[]cfg{{3, 4}, {4, 3}},
+		[]cfg{{3, 3}, {4, 3}},
 		[]cfg{{3, 6}, {4, 5}, {1, 4}, {2, 4}, {5, 5}})
 
 	var cfgtxt []string
